@@ -21,6 +21,12 @@ import (
 
 func (k keyChoice) resolveEC() ([]eckeygen.LocalPartySaveData, []*big.Int, error) {
 	switch k.Src {
+	case "mem":
+		d, ks := resolveMemEC(k.Seed)
+		if d == nil {
+			return nil, nil, fmt.Errorf("in-memory key %s not found", k.Seed)
+		}
+		return d, ks, nil
 	case "dealer":
 		d := dealKeys(false, k.N, k.T, k.Pattern, k.Seed)
 		return d.EC, d.Keys, nil
